@@ -2192,6 +2192,10 @@ class StateEngine(object):
                         return next
 
                 def asl_choice_BooleanEquals(value):
+                    # A missing Variable is represented as False, which must
+                    # not be mistaken for an actual false value.
+                    if path_match_failed:
+                        return None
                     return next_if(variable, operator.eq, value, bool)
 
                 def asl_choice_NumericEquals(value):
